@@ -31,9 +31,12 @@ func (e *kvElection) logWithContext(ctx context.Context) []zap.Field {
 		zap.String("bucket", e.cfg.Bucket),
 	}
 
-	// Add correlation ID if present in context
-	if correlationID := ctx.Value("correlation_id"); correlationID != nil {
-		fields = append(fields, zap.String("correlation_id", correlationID.(string)))
+	// Add correlation ID if present in context. The election context is nil
+	// before Start and after a completed StopWithContext.
+	if ctx != nil {
+		if correlationID := ctx.Value("correlation_id"); correlationID != nil {
+			fields = append(fields, zap.String("correlation_id", correlationID.(string)))
+		}
 	}
 
 	return fields
